@@ -17,7 +17,7 @@ NODE_KINDS = ["CHK", "LIT", "SSK", "SSK-RO", "MDMF", "MDMF-RO", "DIR2", "DIR2-RO
 
 
 def plan(tier):
-    n = 200 if tier == "quick" else 3000
+    n = 600 if tier == "quick" else 3000
     return [{"kind": "hyp", "n": n} for _ in range(16)]
 
 
